@@ -12,6 +12,8 @@ import Rooc.Display
 import Rooc.Syntax.Parse
 import Rooc.Syntax.Render
 import Rooc.Syntax.FormatToks
+import Rooc.Syntax.ProgramToks
+import Rooc.Syntax.Program
 namespace Rooc.Display
 open Rooc Rooc.Syntax
 
@@ -102,4 +104,28 @@ def intoExp (numOf : String → α) : PExp → Option (Exp α)
   | _ => none
 end
 
+end Rooc.Display
+
+namespace Rooc.Display
+open Rooc Rooc.Syntax
+
+def cmpOf : Rooc.Cmp → Syntax.Cmp
+  | .le => .le | .ge => .ge | .eq => .eq | .lt => .lt | .gt => .gt
+
+section
+variable {α : Type}
+
+/-- token twin of `impl Display for Constraint` -/
+def constraintDToks (tok : α → String) (c : Constraint α) : List Tok :=
+  (if c.name.isEmpty then [] else [.word c.name, .colon])
+    ++ dToks tok none c.lhs ++ (if c.isAssert then [] else cmpTok (cmpOf c.cmp) :: dToks tok none c.rhs)
+
+/-- the `PreConstraint` the rendering of a compiled constraint stands for -/
+def toPConstraint (tok : α → String) (c : Constraint α) : PConstraint :=
+  { name := if c.name.isEmpty then none else some (.plain c.name),
+    lhs := toP tok c.lhs,
+    cmp := if c.isAssert then .eq else cmpOf c.cmp,
+    rhs := if c.isAssert then .bool true else toP tok c.rhs,
+    logic := c.isAssert, iterVars := [], iters := [] }
+end
 end Rooc.Display
